@@ -12,6 +12,8 @@
 //   init <k> {<index> <value> <con> [P <precision>]}*k       con : N | I <lo|*> <hi|*> <inclLo> <inclHi>   (precision: default 0)
 //   step | optimize
 //   setmax <n>                                setMaximumNumberOfEvaluations(n) on the optimiser that exists
+//   setpol <k|i|a>                            setConstraintPolicy(...) on the optimiser that exists (takes effect at the next init:
+//                                             the same object is used again with another policy / other constraints)
 //   clone                                     the optimiser is replaced by its clone() (the step listener is attached again:
 //                                             copies do not keep listeners)
 //   hint <cond> <inside> <convex> <full> <minimiser_i>*   what the generator knows about the objective (ignored here)
@@ -274,6 +276,11 @@ struct Machine {
       return "ok";
     }
     if (o == "setmax") { opt->setMaximumNumberOfEvaluations((unsigned int)toU(t.at(i++))); return "ok"; }
+    if (o == "setpol") {
+      std::string pol = t.at(i++);
+      opt->setConstraintPolicy(pol == "a" ? AutoParameter::CONSTRAINTS_AUTO : pol == "i" ? AutoParameter::CONSTRAINTS_IGNORE : AutoParameter::CONSTRAINTS_KEEP);
+      return "ok";
+    }
     if (o == "init") {
       size_t k = toU(t.at(i++));
       std::string a = guarded([&]() -> std::string {
